@@ -219,6 +219,29 @@ def r2(ctx):
         yield VIOL("C16-R2", "parse/frac-nanos", "fraction is not padded/truncated to 9 digits (nanoseconds)", where=loc(b.j["span"]))
     else:
         yield PASS("C16-R2", "parse/frac-nanos", "fraction padded with '0' and truncated to 9 digits", [site(b, tr[0][0], "truncate(9)")])
+    # an absent fraction means 0 ns: the only integer constant that can reach the nanosecond argument is 0
+    for bi, t in ctor:
+        if t["callee"].endswith("from_hms_nano_opt") and len(t["args"]) > 3:
+            sl_ = b.slice_op(t["args"][3])
+            direct = []
+            work_, seen_ = [op_local(t["args"][3])], set()
+            while work_:
+                x_ = work_.pop()
+                if x_ is None or x_ in seen_:
+                    continue
+                seen_.add(x_)
+                for d_ in b.defs().get(x_, []):
+                    if d_["kind"] == "assign" and d_["stmt"]["rv"]["k"] == "use":
+                        k_ = op_const(d_["stmt"]["rv"]["op"])
+                        if k_ is not None:
+                            direct.append(const_value(k_))
+                        else:
+                            work_.append(op_local(d_["stmt"]["rv"]["op"]))
+            nz = [v for v in direct if v != 0]
+            if nz:
+                yield VIOL("C16-R2", "parse/frac-absent", "without a fraction the nanosecond field is %s, not 0: the parsed instant is off" % nz, where=b.span_of_block(bi))
+            else:
+                yield PASS("C16-R2", "parse/frac-absent", "no fraction => 0 ns (constants reaching the nanosecond argument: %s)" % sorted(set(direct)), [])
     # the regex used is ISO_8601_REGEX and the whole input is matched
     cap = one(b.calls(r"regex::Regex::(captures|captures_at)$"), "Regex::captures")
     rs = b.slice_op(cap[1]["args"][0])
